@@ -202,13 +202,13 @@ package container
 
 // execve: every path that returns nil leaves the protocol idle (or the transport lost); every
 // received descriptor is closed; the runner literal always drops capabilities and sets no_new_privs.
-//@ func container.(*containerServer).handleExecve props C04 C10 C12
+//@ func container.(*containerServer).handleExecve props C04 C07 C10 C12
 //@   arith int
 //@   requires P.st == 2 && c != nil && cmd != nil && WA.tokens == 0
 //@   requires forall j int :: soff(msg.Fds) <= j && j < soff(msg.Fds) + len(msg.Fds) ==> 0 <= cell(msg.Fds, j) && cell(msg.Fds, j) < 2147483648
 //@   requires len(msg.Fds) < 1048576
 //@   requires cmd.Seccomp == nil || (len(cmd.Seccomp) >= 1 && len(cmd.Seccomp) <= 65535)
-//@   assigns WA.tokens, WA.pids, U._all, P.st, S.cb_calls, FD.closed, FD.cloexec, W.kill_pid, W.kill_count, W.reaped, FD.handed, all(cmd.Argv), K.fdt, K.clo, K.pid, K.secbits, K.caps_empty, K.nnp, K.filter, K.filter_flags, K.uid, K.uid_set, K.gid, K.gid_set, K.groups_set, K.ngroups, K.groups_ptr, K.sid_new, K.ctty, K.cwd, K.host, K.hostlen, K.host_issued, K.domain, K.domainlen, K.domain_issued, K.clone_flags, K.clone3, K.clone_cgroup, K.mnt_src, K.mnt_type, K.mnt_flags, K.mnt_data, K.mnt_done, K.remount, K.remount_done, K.nmount, K.pivoted, K.pivot_new, K.pivot_old, K.old_detached, K.old_removed, K.rl_cur, K.rl_max, K.rl_set, K.traceme, K.stopped_self, K.sync_stage, K.sync_wfile, K.sync_rfile, K.idmap_read, K.unshare_cgroup_issued, K.last_trap, K.last_errno, K.reported, K.reported_loc, K.reported_err, K.reported_idx, K.exec_attempts
+//@   assigns WA.tokens, WA.pids, U._all, P.st, S.cb_calls, FD.closed, FD.cloexec, W.kill_pid, W.kill_count, W.reaped, FD.handed, all(cmd.Argv), K.fdt, K.clo, K.pid, K.secbits, K.caps_empty, K.nnp, K.filter, K.filter_flags, K.uid, K.uid_set, K.gid, K.gid_set, K.groups_set, K.ngroups, K.groups_ptr, K.sid_new, K.ctty, K.cwd, K.host, K.hostlen, K.host_issued, K.domain, K.domainlen, K.domain_issued, K.clone_flags, K.clone3, K.clone_cgroup, K.mnt_src, K.mnt_type, K.mnt_flags, K.mnt_data, K.mnt_done, K.remount, K.remount_done, K.nmount, K.pivoted, K.pivot_new, K.pivot_old, K.old_detached, K.old_removed, K.rl_cur, K.rl_max, K.rl_set, K.traceme, K.stopped_self, K.sync_stage, K.sync_wfile, K.sync_rfile, K.idmap_read, K.idmap_status, K.unshare_cgroup_issued, K.last_trap, K.last_errno, K.reported, K.reported_loc, K.reported_err, K.reported_idx, K.exec_attempts
 //@   ensures @C10 result == nil ==> P.st == 0 || P.st == 9
 //@   ensures @C10 @C12 result == nil && P.st != 9 ==> WA.tokens == 0 && WA.pids == old(WA.pids)
 //@   ensures @C12 forall k int :: 0 <= k && k < len(msg.Fds) ==> FD.closed[msg.Fds[k]]
